@@ -4,9 +4,14 @@ func init() {
 	register("C05", "PROD-TABLE etc.", rulePRECTABLE, rulePRODTABLE, ruleBRACKETS)
 	register("C06", "", rulePRODGUARD, rulePRODEXTRA, ruleACCEPT, ruleVALIDATEDOM)
 	register("C07", "", rulePUSHSTATE)
-	register("C09", "", rulePARENID)
+	register("C09", "", ruleWSSET, ruleKWCASE, rulePARENID)
 	register("C11", "", ruleDFCOVER, ruleDFACCEPT)
 	register("C01", "", ruleREDBAL, rulePARPUSH, rulePANIC_C01)
 	register("C13", "", rulePANIC_C13)
 	register("C10", "", ruleRETPAIR, ruleCTORNONNIL, ruleVALTOTAL, ruleVALSHAPE, ruleVALIDATEDOM)
+}
+
+func init() {
+	register("C16", "", ruleLEXPEEK, ruleLEXTOK, ruleLEXWRITE, ruleLEXDEPTH, ruleLEXFIRST, ruleLEXLOOP, ruleWSSET, rulePARSEERR)
+	register("C08", "", rulePHRASELOOP)
 }
